@@ -47,8 +47,8 @@ ANCHORS = [
 
 def plan(tier):
     if tier == "quick":
-        return {"shards": 16, "objects": 130, "timeout": 300}
-    return {"shards": 16, "objects": 9000, "timeout": 3000}
+        return {"shards": 16, "objects": 130, "timeout": 900}
+    return {"shards": 16, "objects": 9000, "timeout": 7200}
 
 
 def leaf_spec(rng):
